@@ -294,6 +294,7 @@ type Proc struct {
 	ReturnSeq     int
 	TornKilled    bool
 	KilledAtK     int // visible ordinal before which it was killed (-1: not killed)
+	lastCPU       float64
 }
 
 func (p *Proc) Alive() bool { return p.State == psParked || p.State == psRunning || p.State == psNew }
@@ -335,6 +336,9 @@ type World struct {
 	Count   Counters
 	nio     int
 	Timeout time.Duration
+	// Rule, when set, decides the verdict for a parked visible call that no
+	// addressed fault claims (faults addressed by kind of call, not by ordinal)
+	Rule func(p *Proc, e *Ev) (act string, ok bool)
 	// lock holders: lock path -> set of proc idx (pointer identity via map)
 	holders      map[string]map[*Proc]int // value: fd
 	OnPost       func(w *World, p *Proc, e *Ev)
@@ -504,21 +508,43 @@ func (w *World) reply(p *Proc, s string) {
 }
 
 func (w *World) readLine(p *Proc) (string, bool) {
-	p.fromFile.SetReadDeadline(time.Now().Add(w.Timeout))
-	line, err := p.from.ReadString('\n')
-	if err != nil {
-		if err == io.EOF && line == "" {
-			return "", false
+	acc := ""
+	for waits := 0; ; waits++ {
+		p.fromFile.SetReadDeadline(time.Now().Add(w.Timeout))
+		line, err := p.from.ReadString('\n')
+		acc += line
+		if err != nil {
+			if err == io.EOF && acc == "" {
+				return "", false
+			}
+			if os.IsTimeout(err) {
+				w.watchdog(p, waits)
+				continue // the process got little CPU (loaded machine): keep waiting
+			}
+			if err == io.EOF {
+				return "", false
+			}
+			harnessf("control read p%d: %v", p.Idx, err)
 		}
-		if os.IsTimeout(err) {
-			w.watchdog(p)
-		}
-		if err == io.EOF {
-			return "", false
-		}
-		harnessf("control read p%d: %v", p.Idx, err)
+		return strings.TrimRight(acc, "\n"), true
 	}
-	return strings.TrimRight(line, "\n"), true
+}
+
+// cpuSeconds: user+system CPU time a process has consumed so far.
+func cpuSeconds(pid int) float64 {
+	st, _ := os.ReadFile(fmt.Sprintf("/proc/%d/stat", pid))
+	i := bytes.LastIndexByte(st, ')')
+	if i < 0 {
+		return -1
+	}
+	fs := strings.Fields(string(st[i+2:]))
+	if len(fs) < 13 {
+		return -1
+	}
+	var ut, stt float64
+	fmt.Sscan(fs[11], &ut)
+	fmt.Sscan(fs[12], &stt)
+	return (ut + stt) / 100 // USER_HZ is 100 on Linux
 }
 
 // WatchdogSpin is raised when a simulated process burns CPU without reaching
@@ -528,20 +554,32 @@ type WatchdogSpin struct {
 	Argv []string
 }
 
-func (w *World) watchdog(p *Proc) {
-	// distinguish a spinning process from one asleep in an unmodelled call
-	st, _ := os.ReadFile(fmt.Sprintf("/proc/%d/stat", p.cmd.Process.Pid))
-	state := "?"
-	if i := bytes.LastIndexByte(st, ')'); i >= 0 && i+2 < len(st) {
-		state = string(st[i+2 : i+3])
+// spinCPU: CPU seconds without reaching a visible system call that count as
+// non-termination. Measured in CPU time of the process, not wall time, so a
+// loaded machine cannot turn a slow run into a violation.
+const spinCPU = 15.0
+
+func (w *World) watchdog(p *Proc, waits int) {
+	// three cases: the process burns CPU without reaching a visible call
+	// (non-termination: ergo's defect), it makes progress slowly because the
+	// machine is loaded (keep waiting), or it consumes nothing at all (asleep
+	// in a call the interposer does not model: the harness's trouble). The
+	// state letter in /proc/<pid>/stat is the main thread's only, so CPU time
+	// of the whole process is what decides.
+	pid := p.cmd.Process.Pid
+	cpu := cpuSeconds(pid)
+	if cpu >= 0 && cpu < spinCPU && cpu > p.lastCPU+0.05 && waits < 30 {
+		p.lastCPU = cpu
+		w.Count.Inc("watchdog.extended")
+		return
 	}
 	p.cmd.Process.Kill()
 	p.cmd.Wait()
 	p.State = psKilled
-	if state == "R" {
+	if cpu >= spinCPU {
 		panic(WatchdogSpin{Proc: p.Idx, Argv: p.Spec.Argv})
 	}
-	harnessf("watchdog: p%d (%v) silent for %v in state %s (unmodelled blocking call?)", p.Idx, p.Spec.Argv, w.Timeout, state)
+	harnessf("watchdog: p%d (%v) silent for %v x %d after %.1fs CPU (unmodelled blocking call?)", p.Idx, p.Spec.Argv, w.Timeout, waits+1, cpu)
 }
 
 func (w *World) reap(p *Proc) {
@@ -900,6 +938,37 @@ type seqSched struct{}
 
 func (seqSched) Pick(w *World, procs []*Proc, runnable []int) int { return 0 }
 
+// serialSched: the processes run one after another, each to its end, in a
+// seeded order (no overlap: nobody meets a busy lock).
+type serialSched struct {
+	rng  *SplitMix
+	rank map[int]int
+}
+
+func (s *serialSched) Pick(w *World, procs []*Proc, runnable []int) int {
+	if s.rank == nil {
+		s.rank = map[int]int{}
+		perm := make([]int, len(procs))
+		for i := range perm {
+			perm[i] = i
+		}
+		for i := len(perm) - 1; i > 0; i-- {
+			j := s.rng.Intn(i + 1)
+			perm[i], perm[j] = perm[j], perm[i]
+		}
+		for pos, p := range perm {
+			s.rank[p] = pos
+		}
+	}
+	best := 0
+	for i, r := range runnable {
+		if s.rank[r] < s.rank[runnable[best]] {
+			best = i
+		}
+	}
+	return best
+}
+
 type randSched struct{ rng *SplitMix }
 
 func (s randSched) Pick(w *World, procs []*Proc, runnable []int) int {
@@ -1046,6 +1115,10 @@ func (w *World) RunBatch(specs []ProcSpec, sched Scheduler, faults []Fault) *Bat
 		act := "go"
 		if f, ok := fmap[[2]int{pi, p.Pend.K}]; ok {
 			act = f.Act
+		} else if w.Rule != nil {
+			if a, ok := w.Rule(p, p.Pend); ok {
+				act = a
+			}
 		}
 		w.Step(p, act)
 		steps++
@@ -1093,8 +1166,21 @@ func (w *World) RunPlain(argv []string, stdin []byte, cwd string) (stdout, stder
 			}
 		}
 	case <-time.After(60 * time.Second):
+		// 60 s of wall time: a hang only if the process really consumed CPU
+		cpu := cpuSeconds(cmd.Process.Pid)
+		if cpu < spinCPU {
+			select {
+			case <-done:
+				harnessf("observation process %v needed more than 60 s with %.1fs CPU: starved machine", argv, cpu)
+			case <-time.After(240 * time.Second):
+			}
+			cpu = cpuSeconds(cmd.Process.Pid)
+		}
 		cmd.Process.Kill()
 		<-done
+		if cpu < spinCPU {
+			harnessf("observation process %v silent for 5 min with %.1fs CPU", argv, cpu)
+		}
 		code = -1
 	}
 	w.Count.Inc("procs.plain")
